@@ -176,6 +176,10 @@ fn main() {
         if b("nul") {
             mb.line_terminator(Some(0));
         }
+        // rg bans NUL from patterns unless --text is given (binary detection on); "ban":false switches it off
+        if v["ban"].as_bool().unwrap_or(true) {
+            mb.ban_byte(Some(0));
+        }
         let m = match mb.build_many(&pats) {
             Ok(m) => m,
             Err(e) => return json!({"ok": false, "err": e.to_string()}),
